@@ -2,6 +2,7 @@ import ChiDriver.Common
 import ChiModel.Labels
 import ChiModel.ReducedResize
 import ChiModel.TopLevel
+import ChiModel.PosteriorS1
 import ChiDriver.C08
 open Wire ChiModel
 namespace ChiDriver.C17
@@ -65,6 +66,32 @@ def topnames : Op
           .int (h.nParameters false), .int (h.nParameters true)]
   | _ => none
 
+/-- `C17.posteriorS1 kind nBottom nTop priorExcludes` → `[gradient length, score is -inf]` of the posterior's
+    `evaluateS1` at a vector of `nBottom + nTop` entries; `kind` = `plain` (`LogPosterior`: the prior lives on all
+    entries), `hierarchical` (`HierarchicalLogPosterior`: on the trailing `nTop`), `filter`
+    (`PopulationFilterLogPosterior`: on the leading `nTop`). The likelihood part is taken as finite. -/
+def posteriorS1 : Op
+  | [kindV, nbV, ntV, exV] => do
+    let kind ← kindV.str?
+    let nb ← nbV.nat?
+    let nt ← ntV.nat?
+    let ex ← exV.bool?
+    let n := nb + nt
+    let sc : Score Float := if ex then .negInf else .val 0.0
+    let ll : Unit → PosteriorS1.S1 Float := fun _ => ⟨.val 0.0, List.replicate n 0.0⟩
+    let r ← match kind with
+      | "plain" => some (PosteriorS1.plain ⟨sc, List.replicate n 0.0⟩ ll)
+      | "hierarchical" =>
+        some (PosteriorS1.hierarchical (1.0 / 0.0) nb (List.replicate n 1.0) ⟨sc, List.replicate nt 0.0⟩ ll)
+      | "filter" =>
+        some (PosteriorS1.filter nt (List.replicate n 0.0) ⟨sc, List.replicate nt 0.0⟩ (fun b => ⟨.val 0.0, b⟩))
+      | _ => none
+    match r with
+    | .ok o => some [.int o.grad.length, .bool (PosteriorS1.isInf o.score)]
+    | .error _ => some [errVal "valueError"]
+  | _ => none
+
 def ops : List (String × Op) :=
-  [("C17.labels", labels), ("C17.resize", resize), ("C17.topnames", topnames)]
+  [("C17.labels", labels), ("C17.resize", resize), ("C17.topnames", topnames),
+   ("C17.posteriorS1", posteriorS1)]
 end ChiDriver.C17
